@@ -102,12 +102,13 @@ class Ctx:
         return outp, p.returncode, wall, " ".join(cmd[2:])
 
     def tlc_mc(self, module, cfg_text, name, workers=4, timeout=900, export=False, exhaustive=True,
-               simulate=None, java_opts=""):
+               simulate=None, java_opts="", env_extra=None):
         """Model-check MC_<module>; returns dict(states, distinct, out). Any error => ToolError."""
         extra = []
         if simulate:
             extra = ["-simulate", simulate, "-seed", str(self.seed)]
-        outp, rc, wall, cmd = self._tlc(module, cfg_text, name, workers, timeout, extra=extra, java_opts=java_opts)
+        outp, rc, wall, cmd = self._tlc(module, cfg_text, name, workers, timeout, extra=extra, java_opts=java_opts,
+                                        env_extra=env_extra)
         gen = dist = None
         errors = []
         with open(outp) as f:
